@@ -293,8 +293,8 @@ def exit_status(ctx):
         if ok:
             ca = direct(F.atoms(code, fn))
             ok = has(ca, 'code') and any(
-                pos and direct(F.atoms(t, fn)) & ca
-                for t, pos in F.guards_pol(c, fn))
+                pos and direct(F.atoms(t, f_, b_)) & ca
+                for t, pos, f_, b_ in F.guard_leaves(c, fn))
         ctx.ob(R, 'ScriptExitError|truthy-code|({})'.format(
             fn.qualname if fn else m.name), ok, c,
             'ScriptExitError may carry a zero/None code: a failing script '
